@@ -9,7 +9,7 @@
 //!   the output), one *main use* `.word <path>` at one of the three levels written as one of
 //!   {`a`, `super.a`, `super.super.a`, `s1.a`, `s1.s2.a`}, optionally wrapped in {invoked macro,
 //!   NOT invoked macro, `.if 1`, `.if 0`, `.text "{path}"`, `.loop 2`, `.loop 2` with an own label
-//!   `a` in the body}; the unwrapped use in two statement orders (definitions before / after the
+//!   `a` in the body, argument of a macro invocation whose body emits the parameter}; the unwrapped use in two statement orders (definitions before / after the
 //!   uses); every defining level additionally has a local use `.word a` next to the definition.
 //! * import programs over `main.asm` + `other.asm`: `.import * from`, `.import a from`,
 //!   `.import a as b from`, `.import * as ns from` (use `ns.a`), the same file imported twice
@@ -65,7 +65,7 @@ impl Kind {
     }
 }
 
-const WRAPS: [&str; 8] = ["none", "macro", "macro-uninvoked", "if1", "if0", "interp", "loop", "loopdef"];
+const WRAPS: [&str; 9] = ["none", "macro", "macro-uninvoked", "if1", "if0", "interp", "loop", "loopdef", "macro-arg"];
 const FORMS: [&str; 5] = ["a", "super.a", "super.super.a", "s1.a", "s1.s2.a"];
 const LEVELS: [&str; 3] = ["root", "s1", "s2"];
 const IMPORTS: [&str; 6] = ["star", "named", "alias", "ns", "twice", "block"];
@@ -309,6 +309,7 @@ impl Gen {
             } else {
                 match level {
                     "macro" => "macro",
+                    "macro-arg" => "macro-arg",
                     "ns" => "ns",
                     _ => "scope",
                 }
@@ -370,6 +371,11 @@ impl Gen {
         };
         self.line(f, format!("{}.byte $fd,${:02x}", i, 0xe0 + id));
         self.uses.push(UseInfo { id, text_mode, emitted: vec![] });
+        self.path_occs(f, l, pcol, id, path, level, form, wrap);
+    }
+
+    /// one occurrence per segment of a path written at (line, col)
+    fn path_occs(&mut self, f: usize, l: u32, pcol: u32, id: usize, path: &str, level: &str, form: &str, wrap: &'static str) {
         let segs: Vec<&str> = path.split('.').collect();
         let mut col = pcol;
         for (k, seg) in segs.iter().enumerate() {
@@ -429,6 +435,33 @@ impl Gen {
                 use_id: None,
                     });
                 }
+            }
+            "macro-arg" => {
+                // the path is the argument of the invocation; the body emits the parameter
+                let l = self.line(f, format!("{}.macro m(p) {{", i));
+                self.add_def(f, l, i.len() as u32 + 7, "m", "macro", None, None, w, level);
+                self.add_def(f, l, i.len() as u32 + 9, "p", "macro-arg", None, None, w, level);
+                self.use_block(f, ind + 1, 0, "p", level, "p", w, false);
+                // `p` in the body refers to the parameter by construction
+                let last = self.occs.len() - 1;
+                self.occs[last].role = Role::KnownName("p".into());
+                self.close(f, ind);
+                let l = self.line(f, format!("{}m({})", i, path));
+                let form = self.form("m()");
+                self.occs.push(Occ {
+                    file: f,
+                    line: l,
+                    c0: i.len() as u32,
+                    c1: i.len() as u32 + 1,
+                    probes: vec![(i.len() as u32, 1, "m".into())],
+                    role: Role::KnownName("m".into()),
+                    level: level.to_string(),
+                    form,
+                    wrap: w,
+                    resolved: Resolved::SymmetricOnly,
+                    use_id: None,
+                });
+                self.path_occs(f, l, i.len() as u32 + 2, 0, path, level, path, w);
             }
             "if1" | "if0" => {
                 self.line(f, format!("{}.if {} {{", i, if w == "if1" { 1 } else { 0 }));
@@ -1309,7 +1342,8 @@ fn nav_checks(run: &Run, p: &Program, s: &mut Server) -> Result<(), Death> {
             }
             return;
         }
-        let what = whats.iter().cloned().collect::<Vec<_>>().join("+");
+        // with several definitions at one position the answers are unions: one signature for all shapes
+        let what = if several { "wrong-set".to_string() } else { whats.iter().cloned().collect::<Vec<_>>().join("+") };
         let shown: Vec<String> = notes.iter().filter(|n| !n.contains("multi-line")).take(4).cloned().collect();
         run.finding(
             sig_of(&format!("nav:{}", label), &def_label(p, d), &anchor.level, &anchor.form, anchor.wrap, &what, several),
@@ -1388,6 +1422,9 @@ fn nav_checks(run: &Run, p: &Program, s: &mut Server) -> Result<(), Death> {
                 ctx.count("highlight_without_definition_no_verdict");
                 if !got.is_empty() {
                     ctx.count("highlight_without_definition_nonempty");
+                    if run.verbose {
+                        println!("  (highlight without a definition answer is not empty: no verdict)");
+                    }
                 }
             }
             (Err(e), _) => run.finding(
@@ -1896,7 +1933,14 @@ pub fn run(ctx: &Ctx, replay: Option<&Value>) -> i32 {
         println!("{} replay: {} failing check(s)", ctx.id, n);
         return if n > 0 { 1 } else { 0 };
     }
-    let specs = catalogue(ctx.tier.is_thorough());
+    let mut specs = catalogue(ctx.tier.is_thorough());
+    if c15 && !ctx.tier.is_thorough() {
+        // a rename case costs two fresh servers: the quick tier keeps one statement order
+        specs.retain(|s| match s {
+            Spec::Base { use_first, .. } => !*use_first,
+            Spec::Import { import_last, .. } => !*import_last,
+        });
+    }
     ctx.set("catalogue_size", json!(specs.len()));
     let run = Run { ctx, verbose: false, filter: None, reproduced: Default::default() };
     specs.par_iter().for_each(|spec| run_program(&run, spec, c15));
@@ -1906,7 +1950,8 @@ pub fn run(ctx: &Ctx, replay: Option<&Value>) -> i32 {
         json!({
             "levels": 3, "definition_kinds": ["none", "label", "const"], "path_forms": FORMS,
             "wrappers": if ctx.tier.is_thorough() { WRAPS.to_vec() } else { vec!["none"] },
-            "orders": ["definitions-first (all wrappers)", "uses-first (unwrapped use only)"], "imports": IMPORTS,
+            "orders": if c15 && !ctx.tier.is_thorough() { json!(["definitions-first"]) } else { json!(["definitions-first (all wrappers)", "uses-first (unwrapped use only)"]) },
+            "imports": IMPORTS,
             "positions": if c15 { json!(["start", "middle", "end"]) } else { json!(["first char", "last char"]) },
             "new_names": if c15 { json!(["zz", "q (defined only in sibling scope `sib`)"]) } else { json!(null) },
         }),
